@@ -4,7 +4,7 @@ SPEC = dict(
     level="proof",
     harness=dict(pkg_dir="cmd/zoekt-sourcegraph-indexserver", run="TestVerifC30$",
                  files=["cmd/zoekt-sourcegraph-indexserver/zz_verif_c30_test.go"],
-                 n_quick=300, n_thorough=6000),
+                 n_quick=300, n_thorough=4000),
     runner=dict(imports=["From ZV Require Import Lib.Base Model.Queue."], case_type="c30case",
                 mismatch_fn="c30_mismatches", shard=150),
     rule="random histories (5-60 operations + a final Bump/drain) of AddOrUpdate/Pop/Bump/SetIndexed(5 states)/MaybeRemoveMissing/"
